@@ -538,6 +538,63 @@ func init() {
 				rep.violation(cs, "the key", fmt.Sprint(err), "did.ToPubKey on the text of an RSA key's DID does not give the key back")
 			}
 		}
+		// key material of one key type under the multicodec of ANOTHER (a P-256 point announced as P-384, a secp256k1 point as
+		// P-256, Ed25519 bytes as a curve point ...): whatever the parser does with it, it is not a second identifier of the key
+		cross := 0
+		for _, from := range []string{"ed25519", "secp256k1", "p256", "p384", "p521"} {
+			k, err := kr.get(from, 1)
+			if err != nil {
+				return err
+			}
+			var material []byte
+			if from == "ed25519" {
+				material, err = k.pub.Raw()
+			} else {
+				var x, y *big.Int
+				if x, y, _, err = ecPoint(k); err == nil {
+					if from == "secp256k1" {
+						material, err = k.pub.Raw() // compressed
+					} else {
+						material = elliptic.MarshalCompressed(curveOf(from), x, y)
+					}
+				}
+			}
+			if err != nil {
+				continue
+			}
+			for _, as := range []string{"ed25519", "secp256k1", "p256", "p384", "p521", "rsa"} {
+				if as == from {
+					continue
+				}
+				text, _ := mbase.Encode(mbase.Base58BTC, append(varint.ToUvarint(algCodes[as]), material...))
+				text = "did:key:" + text
+				rep.Evaluations++
+				cross++
+				o := didReal(text)
+				cs := map[string]any{"key_of": from, "announced_as": as, "text": text}
+				if o.panicAt != "" {
+					rep.violation(cs, "a value or an error", o.panicAt, "key material under the multicodec of another key type crashes")
+					continue
+				}
+				if o.parsed && o.pub != nil {
+					var back did.DID
+					var berr error
+					func() {
+						defer func() {
+							if r := recover(); r != nil {
+								berr = fmt.Errorf("panic: %v", r)
+							}
+						}()
+						back, berr = did.FromPubKey(o.pub)
+					}()
+					if berr != nil || back != o.d {
+						rep.violation(cs, "rejected, or the canonical identifier of the extracted key", fmt.Sprint(back, berr),
+							"an identifier announcing another key type yields a key whose DID is a different one (one principal, two DIDs)")
+					}
+				}
+			}
+		}
+		rep.Extra["cross_type_identifiers"] = cross
 		rep.Extra["rsa_modulus_sizes"] = rsaSizes
 		rep.Extra["injectivity_pairs"] = pairs
 		return nil
